@@ -1462,7 +1462,13 @@ func (f *e1func) transfer(st *fstate, n ast.Node, sites *[]*e1site) []*fstate {
 		// the same status-returning call evaluated again (a retry, a second attempt after a fallback): what the state knows
 		// about the outcome of the earlier evaluation does not describe this one.  Events (called / did*) stay.
 		if len(rhs) == 1 && (rhs[0].K == "call" || rhs[0].K == "mcall") {
-			if idx, _, _ := f.callStatusIdx(s.Rhs[0]); idx >= 0 && (st.has(fact("ok", rhs[0])) || st.has(fact("fail", rhs[0]))) {
+			// (a call of a helper that is interpreted in place was evaluated just before this statement - its outcome is fresh;
+			// re-evaluations of such calls are handled where the helper is entered, see inlineCall)
+			inlined := false
+			if ce, ok := unparen(s.Rhs[0]).(*ast.CallExpr); ok && f.inlineTargetOf(ce) != nil {
+				inlined = true
+			}
+			if idx, _, _ := f.callStatusIdx(s.Rhs[0]); !inlined && idx >= 0 && (st.has(fact("ok", rhs[0])) || st.has(fact("fail", rhs[0]))) {
 				st = st.forgetCall(rhs[0])
 			}
 		}
@@ -1474,6 +1480,12 @@ func (f *e1func) transfer(st *fstate, n ast.Node, sites *[]*e1site) []*fstate {
 			for _, lt := range lhs {
 				if lt == nil || lt.K != "var" || lt.Obj == nil || !mentions(oldCall, lt.Obj, nil) {
 					continue
+				}
+				if ts := typeStr(lt.Obj.Type()); ts == "context.Context" || ts == "*net/http.Request" || ts == "*http.Request" {
+					// ctx, span := tracer.Start(ctx, ...) / r = r.WithContext(ctx): the derived context / request stands for the
+					// same request; the tables never distinguish them (no definition is recorded, as before)
+					oldCall = rhs[0]
+					break
 				}
 				var oldVal *Term
 				if d := f.defOf(st, lt); d != nil && !mentions(d.A[1], lt.Obj, nil) {
@@ -1776,8 +1788,8 @@ func (f *e1func) neverNil(t *Term, st *fstate) bool {
 		i := strings.LastIndex(t.S, ".")
 		base := t.S[i+1:]
 		switch t.S {
-		case "fmt.Errorf", "errors.New", "errors.Join":
-			return true
+		case "fmt.Errorf", "errors.New", "errors.Join", "new":
+			return true // new(T) never yields nil
 		}
 		if strings.HasPrefix(base, "Err") || base == "NewStatusError" || base == "DefaultToServerError" || base == "unimplementedGrantError" || base == "unimplementedError" {
 			return true
